@@ -121,7 +121,7 @@ func genVecCase(t *rapid.T) vecCase {
 	s := gen.GenSchema(t, o)
 	c := vecCase{ChunkMode: rapid.SampledFrom([]uint32{0, 1, 1024, 1025}).Draw(t, "cm")}
 	c.Batch = s.GenBatch(t, "b", gen.BatchOpts{MaxDocs: 14, MinDocs: 1})
-	if gen.Chance(t, "clustered", 6) {
+	if gen.Chance(t, "clustered", 12) {
 		vo := s.Vecs[0]
 		c.Batch.VecWide = &spec.VecWideSpec{
 			N: rapid.SampledFrom([]int{1000, 1040, 1500}).Draw(t, "vwN"), Field: vo.Name, Dim: vo.Dim, Metric: vo.Metric, Opt: vo.Opt,
